@@ -7,6 +7,7 @@ import (
 	"encoding/json"
 	"fmt"
 	"os"
+	"sync"
 	"testing"
 	"time"
 
@@ -25,6 +26,7 @@ func TestVerifZipperWork(t *testing.T) {
 			Size   int    `json:"size"`
 			Old    string `json:"old"`
 			New    string `json:"new"`
+			Budget int    `json:"budget_ms"`
 		} `json:"cases"`
 		BudgetMs int `json:"budget_ms"`
 	}
@@ -49,7 +51,17 @@ func TestVerifZipperWork(t *testing.T) {
 		ev := map[string]any{"ev": "run", "family": c.Family, "size": c.Size, "completed": false, "panicked": false,
 			"budget_ms": plan.BudgetMs, "blocks": 0, "oversized": false, "maxlit": 0, "litcap": topology.MaxStringLiteralLen,
 			"bytes": 0, "rejected": false}
-		func() {
+		budget := plan.BudgetMs
+		if c.Budget > 0 {
+			budget = c.Budget
+		}
+		ev["budget_ms"] = budget
+		done := make(chan struct{})
+		var evmu sync.Mutex
+		go func() {
+			defer close(done)
+			evmu.Lock()
+			defer evmu.Unlock()
 			defer func() {
 				if r := recover(); r != nil {
 					ev["panicked"] = true
@@ -93,11 +105,26 @@ func TestVerifZipperWork(t *testing.T) {
 			ev["completed"] = true
 			ev["wall_ms"] = time.Since(t0).Milliseconds()
 		}()
+		timedOut := false
+		select {
+		case <-done:
+			evmu.Lock()
+		case <-time.After(time.Duration(budget+2000) * time.Millisecond):
+			// still running beyond the budget: report it as such (the goroutine is abandoned)
+			timedOut = true
+			ev = map[string]any{"ev": "run", "family": c.Family, "size": c.Size, "completed": false, "panicked": false,
+				"budget_ms": budget, "wall_ms": budget + 2000, "blocks": 0, "oversized": false, "maxlit": 0,
+				"litcap": topology.MaxStringLiteralLen, "bytes": 0, "rejected": false}
+		}
 		if _, ok := ev["wall_ms"]; !ok {
 			ev["wall_ms"] = 0
 		}
 		enc.Encode(ev)
-		if c.Old == "" {
+		w.Flush()
+		if !timedOut {
+			evmu.Unlock()
+		}
+		if c.Old == "" || timedOut {
 			continue
 		}
 		// 2. the zipper on every name-identical pair, with the H3 counters
